@@ -192,10 +192,10 @@ def run_point(case):
         return [Fail("MISMATCH", site + ":class", type(res).__name__)]
     want_cls = PointCollection if coll else Point
     ck.check(isinstance(res, want_cls), site + ":class", type(res).__name__)
-    R = res.array.reshape((-1, d + 1))
     n = max(1, coll)
-    if not ck.check(R.shape[0] == n, site + ":shape", res.array.shape):
+    if not ck.check(res.array.shape == ((n, d + 1) if coll else (d + 1,)), site + ":shape", res.array.shape):
         return ck.result()
+    R = res.array.reshape((-1, d + 1))
     for i in range(n):
         ca, fa = cart(case["a"][i])
         bi = 0 if (case["bcast"] or not coll) else i
